@@ -729,7 +729,7 @@ func TestHandover(t *testing.T) {
 	rec.Class("handover:pairs", n)
 }
 
-var replayers = vt.Replayer{"model": vt.Decode(checkModel), "contention": vt.Decode(checkContention), "handover": vt.Decode(checkHandover), "flockfault": vt.Decode(checkFlockFault), "crosspath": vt.Decode(checkCrossPath), "failedlock": vt.Decode(checkFailedLockWhileHeld)}
+var replayers = vt.Replayer{"model": vt.Decode(checkModel), "contention": vt.Decode(checkContention), "handover": vt.Decode(checkHandover), "flockfault": vt.Decode(checkFlockFault), "crosspath": vt.Decode(checkCrossPath), "failedlock": vt.Decode(checkFailedLockWhileHeld), "openfault": vt.Decode(checkOpenFault)}
 
 func TestReplay(t *testing.T) { vt.Replay(t, rec, replayers) }
 
